@@ -11,15 +11,18 @@ import (
 	"fmt"
 	"reflect"
 	"sync/atomic"
+	"time"
 
 	"github.com/alephium/wormhole-fork/node/pkg/common"
 	"github.com/alephium/wormhole-fork/node/pkg/p2p"
+	"github.com/alephium/wormhole-fork/node/pkg/processor"
 	gossipv1 "github.com/alephium/wormhole-fork/node/pkg/proto/gossip/v1"
 	"github.com/alephium/wormhole-fork/node/pkg/vaa"
 	"github.com/alephium/wormhole-fork/node/verifh/ev"
 	"github.com/alephium/wormhole-fork/node/verifh/keys"
 	"github.com/alephium/wormhole-fork/node/verifh/mc"
 	"github.com/alephium/wormhole-fork/node/verifh/proch"
+	"github.com/alephium/wormhole-fork/node/verifh/vtime"
 	ethcommon "github.com/ethereum/go-ethereum/common"
 	"github.com/ethereum/go-ethereum/crypto"
 	"github.com/libp2p/go-libp2p/core/peer"
@@ -381,13 +384,14 @@ func observationMutants() int {
 	e[31] = 0x42
 	msg := proch.Msg{Seq: 1, Payload: []byte{1}, Emitter: e, Chain: 2, Target: 255}
 	for _, size := range []int{1, 3, 6, 19} {
-		for _, hist := range []string{"before", "after", "observed-setchange-reobserved"} {
+		for _, hist := range []string{"before", "after", "observed-setchange-reobserved", "gossiped-settled-setchange"} {
 			after := hist != "before"
 			reobs := hist == "observed-setchange-reobserved"
+			settled := hist == "gossiped-settled-setchange"
 			cfg := proch.Config{Name: "obs", Sets: [][]int{rng(0, size), rng(1, size+1)}, OwnKey: 1, Msgs: []proch.Msg{msg}}
 			if size == 1 {
 				cfg.OwnKey = 0
-				if reobs {
+				if reobs || settled {
 					continue
 				}
 			}
@@ -408,6 +412,15 @@ func observationMutants() int {
 					for len(nd.Pending) > 0 {
 						nd.TakeLoopback(0)
 					}
+					return nd
+				}
+				if settled {
+					// the digest is known from gossip only (never observed locally); a cleanup tick passes after the
+					// settlement time; THEN the set changes: the applicable set for the digest is the new one
+					nd.Step(&gossipv1.SignedObservation{Addr: keys.Addr(1).Bytes(), Hash: msg.OwnDigest(), Signature: keys.Sign(1, msg.OwnDigest())})
+					vtime.Advance(31 * time.Second)
+					nd.Step(processor.VerifTick{})
+					nd.Step(proch.Set(1, cfg.Sets[1]...))
 					return nd
 				}
 				if after {
